@@ -103,8 +103,15 @@ pub fn monitor_c13(m: &mut Mon, w: &IncWorld, pre: &Snap, op: &Op, ok: bool, pos
     // global weight = sum of address weights
     let sum: u128 = post.st.aw.values().sum();
     m.check(post.st.gw == sum, &format!("global_eq_sum_weights: GLOBAL_WEIGHT {} but the address weights add up to {}", post.st.gw, sum));
-    // shares of the current epoch add up to at most 100 %
+    // the GlobalWeight query reports exactly the stored snapshots (current, previous and next epoch: stored value or an error)
     let cur = post.epoch;
+    for e in [cur.saturating_sub(1), cur, cur + 1] {
+        let r: Result<white_whale_std::pool_network::incentive::GlobalWeightResponse, _> = w.app.wrap().query_wasm_smart(&w.incentive,
+            &white_whale_std::pool_network::incentive::QueryMsg::GlobalWeight { epoch_id: e });
+        let agrees = match (r, post.st.snap.get(&e)) { (Ok(r), Some(g)) => r.global_weight.u128() == *g && r.epoch_id == e, (Err(_), None) => true, _ => false };
+        m.check(agrees, &format!("global_weight_query: GlobalWeight{{epoch_id:{}}} disagrees with the stored snapshot", e));
+    }
+    // shares of the current epoch add up to at most 100 %
     if let Some(g) = post.st.snap.get(&cur).copied() {
         if g > 0 {
             let mut total = cosmwasm_std::Uint256::zero();
